@@ -80,8 +80,24 @@ func schedCase0(h *hctx, n, localIdx int) {
 	}
 	h.check("vreset", rp, "vreset "+h.cfg.String()+" "+hx([]byte(local.id))+" "+hexList(idList(ms)), "ok", false)
 	k, c := s.NumDataShards(), s.NumCodingShards()
-	if k != max(1, (n-1)/3) || k+c != n-1 || s.BuildThreshold() != k {
-		h.violate("scheduler-shard-counts", fmt.Sprintf("n=%d: k=%d c=%d build=%d", n, k, c, s.BuildThreshold()), rp)
+	wantRecv := 2 * k
+	if n <= 3 {
+		wantRecv = k
+	}
+	if k != max(1, (n-1)/3) || k+c != n-1 || s.BuildThreshold() != k || s.NumTotalShards() != n-1 || s.ReceiveThreshold() != wantRecv {
+		h.violate("scheduler-shard-counts", fmt.Sprintf("n=%d: k=%d c=%d total=%d build=%d receive=%d", n, k, c, s.NumTotalShards(), s.BuildThreshold(), s.ReceiveThreshold()), rp)
+	}
+	// the publisher's list of targets is, index by index, the designated broadcaster every receiver
+	// checks the origin against
+	if tg := s.BroadcastTargets(); len(tg) != k+c {
+		h.violate("scheduler-broadcast-targets-differ-from-designated-broadcasters", fmt.Sprintf("n=%d: %d targets for %d shards", n, len(tg), k+c), rp)
+	} else {
+		for i, t := range tg {
+			if q, e := s.PeerForShardIndex(local.id, propeller.ShardIndex(i)); e != nil || q != t {
+				h.violate("scheduler-broadcast-targets-differ-from-designated-broadcasters",
+					fmt.Sprintf("n=%d local=%d: BroadcastTargets()[%d] = %s but PeerForShardIndex(self, %d) = %s (%v)", n, localIdx, i, t, i, q, e), rp)
+			}
+		}
 	}
 	everyone := append(append([]member{}, ms...), outsider)
 	for _, pub := range everyone {
